@@ -39,6 +39,24 @@ pub struct TraitFnAnalyzer<'s> {
 }
 
 impl TraitFnAnalyzer<'_> {
+    /// Analyze a fn that is a member of a module or impl block.
+    /// Its `cfg` attributes are carried over to the generated methods,
+    /// so that a disabled fn does not leave a dangling method behind.
+    pub fn analyze_member_fn(
+        self,
+        input_fn: &crate::input::InputFn,
+        analyzer: &mut GenericsAnalyzer,
+    ) -> syn::Result<TraitFn> {
+        let mut trait_fn = self.analyze(input_fn.input_sig(), analyzer)?;
+        trait_fn.attrs = input_fn
+            .fn_attrs
+            .iter()
+            .filter(|attr| attr.path().is_ident("cfg"))
+            .cloned()
+            .collect();
+        Ok(trait_fn)
+    }
+
     pub fn analyze(
         self,
         input_sig: InputSig<'_>,
